@@ -44,6 +44,10 @@ theorem Conv.shift {α : Type} {g : Nat → Res α} {r : Res α} (h : Conv g r) 
   obtain ⟨f0, h⟩ := h
   exact ⟨f0, fun f hf => h (f+k) (by omega)⟩
 
+theorem Res.bind_assoc {α β γ : Type} (a : Res α) (k : α → List Token → Res β) (k' : β → List Token → Res γ) :
+    (a.bind k).bind k' = a.bind (fun x ts => (k x ts).bind k') := by
+  cases a <;> rfl
+
 variable (cfg : Cfg)
 
 /-- what `parseExpression(p)` does after its primary: the operator loop, then the conditional at level 0 -/
